@@ -12,6 +12,7 @@ import GambitV.Gen.PyClassify
 import GambitV.Gen.PyResultItem
 import GambitV.Gen.PyRefDb
 import GambitV.Gen.PyCalcFiles
+import GambitV.Gen.PyMetric
 import GambitV.Model.Bulk
 import GambitV.Model.Indexing
 import GambitV.Spec.Taxonomy
@@ -124,5 +125,27 @@ def calcFiles (oks : List Bool) (sigma : Option (List Nat)) (realIsErr : Bool) :
     | .raised _ => "err"
     | .fuelOut => "!fuel"
   cmp "calc_file_signatures" Gen.calc_file_signatures.untranslatable gs (if realIsErr then "err" else "ok")
+
+/-- `metric.jaccarddist` / `metric.jaccard` (the Python wrappers) on two arrays of unsigned 64-bit type: `dist:index` bit patterns -/
+def distIdx (a b : List Nat) (real : String) : Option String :=
+  let dt : Py.DType := { kind := 'u', size := 8, native := true }
+  let A : Py.Arr := { dtype := dt, vals := a.map (fun (x : Nat) => (x : Int)) }
+  let B : Py.Arr := { dtype := dt, vals := b.map (fun (x : Nat) => (x : Int)) }
+  let g := match Gen.jaccarddist A B, Gen.jaccard A B with
+    | .ok d, .ok j => s!"{d.toNat}:{j.toNat}"
+    | .raised e, _ => "!" ++ e.name
+    | _, .raised e => "!" ++ e.name
+    | _, _ => "!fuel"
+  cmp "metric.jaccarddist / jaccard" (Gen.jaccarddist.untranslatable || Gen.jaccard.untranslatable) g real
+
+/-- `_cast_sigs_array` on an array of the given type: item size of the unsigned result, `~` = refused -/
+def castArr (kind : Char) (size : Nat) (native : Bool) (real : String) : Option String :=
+  let A : Py.Arr := { dtype := { kind := kind, size := size, native := native }, vals := [0, 0, 0] }
+  let g := match Gen.cast_sigs_array A with
+    | .ok r => if r.dtype.kind == 'u' then toString r.dtype.size else "bad"
+    | .raised .ValueError => "~"
+    | .raised e => "!" ++ e.name
+    | .fuelOut => "!fuel"
+  cmp "_cast_sigs_array" Gen.cast_sigs_array.untranslatable g real
 
 end Driver.PyGen
